@@ -221,14 +221,18 @@ func c11Run(w *kernel.Worker, j *c11Job, rep *kernel.Report) (*Fail, error) {
 			when := ""
 			if qclass == "records" {
 				// Only the goroutine that reached the hold point is held; the other goroutines of the query run on. "Held
-				// before the check" is therefore only claimed when the held goroutine itself goes on to perform the check
-				// after its release; if some goroutine of the query has performed it already the hold came after it; in the
+				// before the check" is therefore only claimed when the held goroutine itself goes on into the block
+				// extraction after its release; if some goroutine of the query has performed it already the hold came after it; in the
 				// remaining case the searching goroutine was never held and met the rotation on its own (same root cause,
 				// timing not owned by this schedule).
 				when = "/searching-goroutine-not-held"
 				for _, l := range r.LabelsOfHeldAfter {
-					if strings.Contains(l, "writer.IsSegKeyUnrotated") {
-						when = "/held-before-the-segment-type-check"
+					// the held goroutine goes on into the block extraction (writer/metadata/reader packages): it is the
+					// searching goroutine (the request goroutine only touches the query tables afterwards)
+					for _, pk := range []string{"@writer.", "@metadata.", "@segread.", "@segreader.", "@search.", "@pqs."} {
+						if strings.Contains(l, pk) {
+							when = "/held-before-the-segment-type-check"
+						}
 					}
 				}
 				for _, l := range r.LabelsBefore {
@@ -242,8 +246,8 @@ func c11Run(w *kernel.Worker, j *c11Job, rep *kernel.Report) (*Fail, error) {
 		if j.Dir == "query-paused" && strings.Fields(j.Writer)[0] != "W1" && strings.HasPrefix(what, "error:") {
 			fp = "C11/search-fails/segment-rotated-during-the-search" // same root cause, surfacing as a query error
 		}
-		fs.Add(fp, fmt.Sprintf("%s held at lock operation %d (%s) while the other party ran; writer %q, query %q: %s",
-			map[string]string{"writer-paused": "writer", "query-paused": "query"}[j.Dir], j.PauseAt, where, j.Writer, j.Query, what))
+		fs.Add(fp, fmt.Sprintf("%s held at lock operation %d (%s) while the other party ran; writer %q, query %q: %s (lock operations of the held goroutine after its release: %v)",
+			map[string]string{"writer-paused": "writer", "query-paused": "query"}[j.Dir], j.PauseAt, where, j.Writer, j.Query, what, r.LabelsOfHeldAfter))
 	}
 	// quiescence: the stored contents equal what a sequential execution gives
 	fin, err := runQueries(w, []Q{{Index: idx, Text: "*", Start: T0 - 10, End: T0 + 1000, Size: 100}, {Index: idx, Text: "* | stats count", Start: T0 - 10, End: T0 + 1000, Size: 100}})
